@@ -83,6 +83,9 @@ def gen_session(rng, wills=False, flow=False):
                     line += f" se={rng.choice([0, 30, 300])}"
                 if ver == 5 and wills and rng.random() < 0.3:
                     line += " code=4"
+                if rng.random() < 0.3:
+                    # the DISCONNECT leaves pipelined behind 1-6 other packets in one write, then the socket closes (seed C08-3)
+                    line += f" pre={rng.choice([1, 2, 6])}"
                 ops.append(line); cur = None
             elif r < 0.8:
                 ops.append(f"close {cur}"); cur = None
